@@ -1,6 +1,8 @@
 import CoercionModel.Proofs.Engine
 import CoercionModel.Proofs.TranslatedGates
 import CoercionModel.Proofs.Regate
+import CoercionModel.Proofs.TranslatedPlan
+import CoercionModel.Proofs.FixPlan
 import CoercionModel.Model.Skeletons
 import CoercionModel.Generated.F10
 set_option linter.unusedSimpArgs false
@@ -142,5 +144,23 @@ theorem gate_fresh_same (pre cont : Option Status) (hp : pre ≠ some .completed
 theorem facts_gate_skeleton :
     Generated.F10.blockPreChecks = Skeletons.blockPreChecks ∧ Generated.F10.planPreChecks = Skeletons.planPreChecks := by
   decide
+
+/-! ### gating during the repair of a recovered block (`fixBlock`, translated by T6 on every run) -/
+
+/-- A Running block whose PreChecks, ContChecks or PostChecks are durably Failed (and whose bypass did not complete) is
+    closed Failed by the repair and none of its sequences is repaired, resumed or executed — whatever `execSeq` would do. -/
+theorem recovery_failed_gate_runs_nothing (exec : Sequence → Sequence × Bool) (now : Nat) (b : Block) (hr : b.status = .running)
+    (hb : Fix.grpStatus b.bypass ≠ some .completed)
+    (hg : Fix.grpStatus b.pre = some .failed ∨ Fix.grpStatus b.cont = some .failed ∨ Fix.grpStatus b.post = some .failed) :
+    (Generated.T6.fixBlock exec now b).status = .failed ∧ (Generated.T6.fixBlock exec now b).seqs = b.seqs := by
+  rw [Translated.fixBlock_eq]; exact Fix.fixBlock_failed_gate exec now b hr hb hg
+
+/-- a Running block whose bypass completed is closed Completed by the repair; no sequence is touched -/
+theorem recovery_bypassed_block_runs_nothing (exec : Sequence → Sequence × Bool) (now : Nat) (b : Block) (hr : b.status = .running)
+    (hb : Fix.grpStatus b.bypass = some .completed) :
+    (Generated.T6.fixBlock exec now b).status = .completed ∧ (Generated.T6.fixBlock exec now b).seqs = b.seqs := by
+  rw [Translated.fixBlock_eq]; exact Fix.fixBlock_bypassed exec now b hr hb
+
+example : Fix.grpStatus ({ status := .running, pre := some { status := .failed } } : Block).pre = some .failed := by decide
 
 end Coercion.C06
